@@ -370,8 +370,21 @@ func runC09(c *Ctx) {
 			}
 		})
 		c.Check(rule, "key range of a sorted row group uses each sorting column's own direction", fn.Pos(), ok && n > 0, "the direction of the sort is read from a fixed sorting column: with mixed ascending/descending keys the computed minimum sorts after the maximum, overlapping row groups are taken for disjoint and concatenated instead of merged")
+		// page bounds ignore nulls: the range must be extended on the side where
+		// the sorting column orders them, which needs the null counts / null
+		// pages of the column index and the column's NullsFirst()
+		nullInfo, nullSide := false, false
+		allCalls(fn, true, func(_ *ssa.Function, call ssa.CallInstruction) {
+			switch calleeName(call) {
+			case "(ColumnIndex).NullCount":
+				nullInfo = true
+			case "(SortingColumn).NullsFirst":
+				nullSide = true
+			}
+		})
+		c.Check(rule, "key range of a sorted row group reaches its null rows", fn.Pos(), nullInfo && nullSide, "the key range is read from page bounds alone, which ignore nulls, without consulting the null counts of the column index and the NullsFirst() of the sorting column: row groups with disjoint value ranges that hold nulls are concatenated and the nulls of each end up in the middle of the output")
 	}
-	c.Min(rule, 1)
+	c.Min(rule, 2)
 	// merge readers propagate read errors
 	io := NewIOErrs(p)
 	runErrRule(c, "C09.errors",
